@@ -332,6 +332,9 @@ class SymReal:
 
     # ---- comparisons
     def _c(self, o, f):
+        if isinstance(o, (float, np.floating)) and o in (float('inf'), float('-inf')):
+            # a real compared with +-inf: decided without the solver (every real is < +inf and > -inf)
+            return bool(f(0.0, float(o)))
         try:
             return SymBool(f(self.e, lift(o)))
         except TypeError:
